@@ -82,3 +82,44 @@ def random_board(seed, length, width, p_loose, max_reward, force_down, tb=0.1, r
     r = repo()
     moves, rewards, loose = r.roberta_generator.gen_rnd_board(seed, length, width, p_loose, max_reward, force_down)
     return dict(moves=moves, rewards=rewards, loose=loose, tb=tb, rb=rb, lb=lb)
+
+
+def cli_args(seed=None, width=None, length=None, rb=None, lb=None, tb=None, lt=None, max_reward=None, force_down=False):
+    a = []
+    for flag, val in (("--seed", seed), ("--width", width), ("--length", length), ("--prob_robot_break", rb),
+                      ("--prob_light_break", lb), ("--prob_tile_break", tb), ("--prob_loose_tile", lt),
+                      ("--max_reward", max_reward)):
+        if val is not None:
+            # --opt=value form: argparse would otherwise take "-5e-324" or "-inf" for an option
+            a.append(f"{flag}={val!r}" if isinstance(val, float) else f"{flag}={val}")
+    if force_down:
+        a.append("-f")
+    return a
+
+
+def run_generator_cli(args):
+    """roberta_generator.main() in-process: argv patched, cwd = clean scratch dir with inputs/.
+    Returns (kind, payload, files): kind 'ok' | 'exc' | 'exit'; files = {name: bytes} under inputs/."""
+    import sys
+    r = repo()
+    d = clean_scratch()
+    cwd = os.getcwd()
+    argv = sys.argv
+    os.chdir(d)
+    sys.argv = ["roberta_generator.py"] + list(args)
+    try:
+        try:
+            r.roberta_generator.main()
+            kind, payload = "ok", None
+        except SystemExit as e:
+            kind, payload = "exit", e
+        except Exception as e:
+            kind, payload = "exc", e
+        files = {}
+        for name in sorted(os.listdir("inputs")):
+            with open(os.path.join("inputs", name), "rb") as f:
+                files[name] = f.read()
+        return kind, payload, files
+    finally:
+        sys.argv = argv
+        os.chdir(cwd)
